@@ -213,5 +213,17 @@ def parse_job():
 
 for _p in ("C01", "C07", "C13"):
     JOBS[_p] = JOBS[_p] + [parse_job()]
+
+
+def float_job():
+    """all binary16 patterns and boundary binary32/binary64 patterns through the widening / shortest-form model and the crate"""
+    return {"module": "MC_Float", "spec": "Spec",
+            "invariants": ["InvParses", "InvHalf", "InvSingle", "InvBack", "InvLossless", "InvFixedPoint", "InvNotLabel", "Emit"],
+            "quick": {"constants": {"H1s": "{0, 1, 3, 4, 60, 123, 124, 125, 126, 127, 128, 252}"}, "timeout": 300, "workers": 8},
+            "thorough": {"constants": {"H1s": "0..255"}, "timeout": 1800, "workers": 8}}
+
+
+for _p in ("C07", "C13"):
+    JOBS[_p] = JOBS[_p] + [float_job()]
 for _p, _f in TRACE_FAMS.items():
     JOBS[_p] = JOBS[_p] + [trace_job(_f)]
